@@ -108,7 +108,7 @@ def wide_struct_times():
 
 def wide_strs():
     return st.one_of(
-        S.texts(20),
+        S.texts(20), S.surrogate_strs(),
         st.builds(lambda c, n: c * n, st.sampled_from('a\xe9€'),
                   st.sampled_from([127, 128, 129, 255, 256, 257, 300, 65536])),
         st.sampled_from(['\ud800', 'a\udfffb', '', '0', '\x00']),
